@@ -87,6 +87,9 @@ pub use ohkami_lib::stream::{self, Stream, StreamExt};
 /// # ;
 /// ```
 #[inline] pub fn unix_timestamp() -> u64 {
+    #[cfg(ohkami_verif)]
+    if let Some(simulated) = crate::__verif__::wall_clock() {return simulated}
+
     std::time::SystemTime::now()
         .duration_since(std::time::UNIX_EPOCH)
         .unwrap()
